@@ -39,6 +39,7 @@ func (e *userErr) Error() string { return e.text }
 type cancelEv struct {
 	By  string `json:"by"`
 	Err string `json:"err"`
+	Dyn string `json:"dynamic_type"`
 	err error
 	Inv uint64 `json:"inv"`
 	Ret uint64 `json:"ret"` // 0: cancel has not returned
@@ -47,6 +48,8 @@ type cancelEv struct {
 type panicEv struct {
 	By    string `json:"by"`
 	Val   userPanic
+	val   any    // the value really given to panic (Val itself for the default class)
+	Dyn   string `json:"dynamic_type"`
 	Stamp uint64 `json:"stamp"`
 }
 
@@ -92,6 +95,7 @@ type run struct {
 	writes   []writeEv
 	redRet   atomic.Uint64 // stamp taken when the reducer function was about to return
 	faultHit atomic.Int32
+	moreHit  []atomic.Int32 // one per p.More
 	ctxHit   atomic.Int32
 	nErr     atomic.Int32
 
@@ -110,6 +114,7 @@ func newRun(c *kit.Case, id string, p plan) *run {
 		mapped:  make([]int32, p.Items+1),
 		written: make([]int32, (p.Items+1)*fanStride),
 		reduced: make([]int32, (p.Items+1)*fanStride),
+		moreHit: make([]atomic.Int32, len(p.More)),
 	}
 	return r
 }
@@ -135,6 +140,9 @@ func (r *run) endCtx() {
 
 func (r *run) newErr(by string) error {
 	n := int(r.nErr.Add(1))
+	if r.p.Errs != ecPointer {
+		return r.errOfClass(by, n)
+	}
 	return &userErr{run: r.id, by: by, n: n, text: fmt.Sprintf("user error %d of %s by %s", n, r.id, by)}
 }
 
@@ -142,7 +150,7 @@ func (r *run) doCancel(by string, cancel func(error), e error) {
 	if cancel == nil {
 		return
 	}
-	ev := cancelEv{By: by, err: e, Err: fmt.Sprint(e), Inv: kit.Stamp()}
+	ev := cancelEv{By: by, err: e, Err: fmt.Sprint(e), Dyn: fmt.Sprintf("%T", e), Inv: kit.Stamp()}
 	r.evmu.Lock()
 	i := len(r.cancels)
 	r.cancels = append(r.cancels, ev)
@@ -157,9 +165,13 @@ func (r *run) doCancel(by string, cancel func(error), e error) {
 func (r *run) doPanic(by string) {
 	r.evmu.Lock()
 	v := userPanic{Run: r.id, Role: by, N: len(r.panics) + 1}
-	r.panics = append(r.panics, panicEv{By: by, Val: v, Stamp: kit.Stamp()})
+	var val any = v
+	if r.p.PanicVal != pvStruct {
+		val = r.panicOfClass(v)
+	}
+	r.panics = append(r.panics, panicEv{By: by, Val: v, val: val, Dyn: fmt.Sprintf("%T", val), Stamp: kit.Stamp()})
 	r.evmu.Unlock()
-	panic(v)
+	panic(val)
 }
 
 // point is called by the user functions at every (role, index, phase). It ends
@@ -177,6 +189,13 @@ func (r *run) point(role string, idx int, phase string, cancel func(error)) bool
 	if r.p.SecondKind != kNone && r.p.SecondAt == here {
 		if r.act(r.p.SecondKind, thReturn, here, cancel) {
 			return true
+		}
+	}
+	for i, f := range r.p.More {
+		if f.At == here && r.moreHit[i].CompareAndSwap(0, 1) {
+			if r.act(f.Kind, f.Then, here, cancel) {
+				return true
+			}
 		}
 	}
 	if r.p.Kind == kNone || r.p.At != here || !r.faultHit.CompareAndSwap(0, 1) {
@@ -200,6 +219,17 @@ func (r *run) act(kind, then string, here pos, cancel func(error)) bool {
 	case kStall:
 		r.closeOnce(0, r.stallReached)
 		r.hold(r.stallRelease)
+	case kHeld:
+		r.closeOnce(1, r.outReached)
+		r.hold(r.outRelease)
+		switch then {
+		case thReturn:
+			return true
+		case thPanic:
+			r.doPanic(by + "/late")
+		case thCancel:
+			r.doCancel(by+"/late", cancel, r.newErr(by))
+		}
 	case kOutlive:
 		if r.p.Ctx == ctxViaTimer {
 			r.hold(r.ctx.Done())
